@@ -267,7 +267,9 @@ fn step(sys: &mut Sys, op: u64, world: &World, model_asts: &[Result<Ast, parse::
     let pi = (op as usize) / KINDS.len();
     let kind = KINDS[(op as usize) % KINDS.len()];
     let prog: &'static str = PROGRAMS[pi];
-    let case = format!("{}|{}", stage, history);
+    // (`history` is the ready-made case text "<stage>|<operations>": built once per history)
+    let _ = stage;
+    let case = history;
     out.evals += 1;
     out.count("validated", 1);
     out.count("transitions", 1);
@@ -277,7 +279,7 @@ fn step(sys: &mut Sys, op: u64, world: &World, model_asts: &[Result<Ast, parse::
         match (&model_asts[pi], r) {
             (Ok(m), Res::Ok(t)) => {
                 if &conv(&t) != m {
-                    out.fail(format!("parse-result:{}", key), case, format!("parse of {:?} gives {:?}, alone it gives {:?}", prog, conv(&t), m));
+                    out.fail(format!("parse-result:{}", key), case.to_string(), format!("parse of {:?} gives {:?}, alone it gives {:?}", prog, conv(&t), m));
                 }
                 sys.stored[pi] = Some(t);
                 sys.stored_model[pi] = Some(m.clone());
@@ -286,7 +288,7 @@ fn step(sys: &mut Sys, op: u64, world: &World, model_asts: &[Result<Ast, parse::
             (Err(_), Res::Err(_)) => {
                 out.outcomes.insert("parse-error".into());
             }
-            (m, r) => out.fail(format!("parse-result:{}", key), case, format!("parse of {:?}: reference {:?}, engine {:?}", prog, m.is_ok(), r.class())),
+            (m, r) => out.fail(format!("parse-result:{}", key), case.to_string(), format!("parse of {:?}: reference {:?}, engine {:?}", prog, m.is_ok(), r.class())),
         }
         return;
     }
@@ -309,7 +311,7 @@ fn step(sys: &mut Sys, op: u64, world: &World, model_asts: &[Result<Ast, parse::
                 (None, Ok(a)) => eval::eval(a, &mut fm, world).map_err(|_| ()),
                 (None, Err(_)) => Err(()),
             };
-            compare_call(&mr, &er, &canon(&model_vars(&fm)), &canon(&context_vars(&fe)), &key, &case, prog, out);
+            compare_call(&mr, &er, &canon(&model_vars(&fm)), &canon(&context_vars(&fe)), &key, case, prog, out);
             return;
         }
     };
@@ -327,7 +329,7 @@ fn step(sys: &mut Sys, op: u64, world: &World, model_asts: &[Result<Ast, parse::
         (None, Err(_)) => Err(()),
     };
     let (mc, ec) = (canon(&model_vars(mctx)), canon(&context_vars(ectx)));
-    compare_call(&mr, &er, &mc, &ec, &key, &case, prog, out);
+    compare_call(&mr, &er, &mc, &ec, &key, case, prog, out);
 }
 
 #[allow(clippy::too_many_arguments)]
@@ -360,7 +362,13 @@ fn run_history(ops: &[u64], world: &World, model_asts: &[Result<Ast, parse::PErr
     let mut world = world.clone();
     let mut model_asts: Vec<Result<Ast, parse::PErr>> = model_asts.to_vec();
     let (world, model_asts) = (&mut world, &mut model_asts);
-    let history = ops.iter().map(|o| op_text(*o)).collect::<Vec<_>>().join(" ; ");
+    // long histories are named by their shape, not spelled out operation by operation
+    let history_ops = if ops.len() > 40 {
+        format!("{} x [{} ; {}] then {}", (ops.len() - KINDS.len()) / 2, op_text(ops[0]), op_text(ops[1]), ops[ops.len() - KINDS.len()..].iter().map(|o| op_text(*o)).collect::<Vec<_>>().join(" ; "))
+    } else {
+        ops.iter().map(|o| op_text(*o)).collect::<Vec<_>>().join(" ; ")
+    };
+    let history = format!("{}|{}", stage, history_ops);
     // (taken after the first call: the first call of a process fills the registries)
     let mut snap0 = None;
     let mut sys = Sys::new();
@@ -371,7 +379,7 @@ fn run_history(ops: &[u64], world: &World, model_asts: &[Result<Ast, parse::PErr
             *model_asts = PROGRAMS.iter().map(|p| parse::parse(p, &world.ops)).collect();
             // an AST parsed before the registration keeps its meaning; only new parses change
             snap0 = safe_snapshot();
-            before = if i == 0 { "register".to_string() } else { format!("{},register", before) };
+            before = if i == 0 { "register".to_string() } else if i <= 6 { format!("{},register", before) } else { before };
             out.count("transitions", 1);
             continue;
         }
@@ -384,20 +392,23 @@ fn run_history(ops: &[u64], world: &World, model_asts: &[Result<Ast, parse::PErr
         let k = KINDS[(*op as usize) % KINDS.len()];
         if i == 0 {
             before = k.to_string();
-        } else {
+        } else if i < 6 {
             before = format!("{},{}", before, k);
+        } else if i == 6 {
+            // (long histories: the key names the first steps only)
+            before = format!("{},...", before);
         }
     }
     // the other long-lived context must be untouched by calls that did not name it, and the
     // registries by everything
     if canon(&context_vars(&sys.a)) != canon(&model_vars(&sys.ma)) || canon(&context_vars(&sys.b)) != canon(&model_vars(&sys.mb)) {
-        out.fail(format!("context:cross-talk:{}", before), format!("{}|{}", stage, history), format!("A={{{}}} B={{{}}} expected A={{{}}} B={{{}}}", canon(&context_vars(&sys.a)), canon(&context_vars(&sys.b)), canon(&model_vars(&sys.ma)), canon(&model_vars(&sys.mb))));
+        out.fail(format!("context:cross-talk:{}", before), history.clone(), format!("A={{{}}} B={{{}}} expected A={{{}}} B={{{}}}", canon(&context_vars(&sys.a)), canon(&context_vars(&sys.b)), canon(&model_vars(&sys.ma)), canon(&model_vars(&sys.mb))));
     }
     match safe_snapshot() {
-        None => out.fail(format!("registry-unusable:{}", before), format!("{}|{}", stage, history), "a global registry cannot be read any more (poisoned lock) after these calls"),
+        None => out.fail(format!("registry-unusable:{}", before), history.clone(), "a global registry cannot be read any more (poisoned lock) after these calls"),
         now => {
             if now != snap0 {
-                out.fail(format!("registry-changed:{}", before), format!("{}|{}", stage, history), "parse / exec changed the contents of a global registry");
+                out.fail(format!("registry-changed:{}", before), history.clone(), "parse / exec changed the contents of a global registry");
             }
         }
     }
